@@ -23,7 +23,8 @@ THEOREMS = [
     "C14_rejects_drops_without_direction", "C14_rejects_count_mismatch", "C14_rejects_trailing",
     "C14_game_moves", "C14_game_nosplit", "C14_game_badmove", "C14_str_nat_value", "C14_glyph_tie", "C14_regex_tie",
     "C14_regex_ast_text", "C14_move_regex_matcher", "C14_result_regex_matcher", "C14_number_regex_matcher",
-    "C14_suffix_regex_sub", "C14_comment_regex_sub", "C14_space_regex_match_partial", "C14_tag_regex_attempt_partial",
+    "C14_suffix_regex_sub", "C14_comment_regex_sub", "C14_space_regex_match", "C14_space_regex_split",
+    "C14_tag_regex_attempt", "C14_tag_regex_findall",
             "C14_source_format_move_eq", "C14_source_format_move_crashes", "C14_source_parse_format_move"]
 MODEL_TARGETS = ["model/Tak.vo", "model/Harness.vo", "model/Lit.vo", "model/Ptn.vo"]
 TRUSTED_BASE = [
@@ -32,8 +33,9 @@ TRUSTED_BASE = [
     "texts of ptn.py are proved to be the printed AST terms, and match_move, is_result, is_move_number, strip_suffix and "
     "sub_comments are proved equal to those terms under that semantics (leftmost start is the only part of re's backtracking "
     "order relied on; every match used is proved unique at its start)",
-    "still tied by the correspondence only: the greedy split re.split(\\s+) (re_split_ws), the re.findall scan over the head "
-    "(scan_tags; a single attempt is proved equal to the tag regex) and dict()",
+    "re.split(\\s+) and re.findall(tag regex, re.M) are proved too (resplit with leftmost-longest, refindall2 with unique "
+    "matches; the findall statement holds where scan_tags answers Some, i.e. where the \\w table applies); the flag re.M is "
+    "not part of the regex text (it is part of the term in T14P, where the call is translated)",
     "Unicode classes \\s and \\d of the running interpreter equal the model's tables (checked over all 0x110000 code "
     "points on every run); \\w is modelled on ASCII, \\d and \\s only - a tag key holding another code point >= 128 is Unspecified",
     "str.split, dict(), chr, str(int), tuple/generator semantics as used by ptn.py (validated by the correspondence)",
